@@ -194,6 +194,8 @@ def _options(o):
     for k in ("immutable", "ignore_required", "ignore_delete_nonexistent", "collect_errors", "override"):
         if o.get(k):
             okw[k] = True
+    if o.get("mode"):
+        okw["mode"] = o["mode"]
     add = o.get("addition", "ignore")
     if add == "forbid":
         okw["addition"] = False
@@ -274,7 +276,9 @@ def build_class(case):
 
     key = json.dumps([case["base"], case["opts"], case["fields"], case.get("props", []), case.get("excluded", []),
                       case.get("hier")], sort_keys=True)
-    if key in _CLS_CACHE:
+    if key in _CLS_CACHE and not case.get("prelude"):
+        # (a case with a prelude gets a class of its own: what the prelude leaves behind must not depend on
+        # which cases the worker saw before)
         return _CLS_CACHE[key]
     root = Schema if case["base"] == "schema" else DataClass
     h = case.get("hier")
@@ -428,6 +432,49 @@ def op_values(case):
     return out
 
 
+def run_prelude(case, cls):
+    """Earlier use of the same declarations under OTHER options, before the instance under test exists: a subclass
+    with its own Options (a PATCH-style variant), the Options(...)(cls) variant, or `cls.__from__(data, options=...)`;
+    each is parsed and mutated.  Nothing of it may influence the instance under test: model and oracle ignore the
+    prelude, i.e. the run is compared with the same history without it."""
+    import warnings
+    from utype import Options
+    keep = []
+    for n, pre in enumerate(case.get("prelude") or []):
+        data = {k: dec(v) for k, v in pre.get("data", [])}
+        try:
+            with warnings.catch_warnings():
+                warnings.simplefilter("ignore")
+                if pre["how"] == "subclass":
+                    sub = type(f"{cls.__name__}Pre{n}", (cls,), {"__module__": __name__, "__options__": Options(**_options(pre["opts"]))})
+                    o = sub(**data)
+                elif pre["how"] == "optcall":
+                    o = Options(**_options(pre["opts"]))(cls)(**data)
+                else:
+                    o = cls.__from__(data, options=Options(**_options(pre["opts"])))
+        except Exception:  # noqa — a prelude that does not parse is still an earlier parse
+            continue
+        keep.append(o)
+        for op in pre.get("ops", []):
+            try:
+                k = op.get("k")
+                if op["op"] == "delattr":
+                    delattr(o, k)
+                elif op["op"] == "setattr":
+                    setattr(o, k, dec(op["v"]))
+                elif op["op"] == "delitem":
+                    del o[k]
+                elif op["op"] == "pop":
+                    o.pop(k)
+                elif op["op"] == "popitem":
+                    o.popitem()
+                elif op["op"] == "clear":
+                    o.clear()
+            except Exception:  # noqa
+                pass
+    return keep
+
+
 def impl(case):
     import operator
     import warnings
@@ -438,6 +485,7 @@ def impl(case):
         cls = build_class(case)
     except Exception as e:  # noqa — the library's own declaration checks decide legality
         return {"skip": "declaration: " + type(e).__name__}
+    _prelude_keep = run_prelude(case, cls)
     try:
         if case.get("nest"):
             inst, _keep = build_nested(case, cls)
@@ -892,12 +940,43 @@ def add_nesting(rng, c):
     return c
 
 
+def add_prelude(rng, c):
+    """an earlier parse (and mutation) of the same declarations under other options"""
+    tab, keys = key_pool(c)
+    pre = []
+    for _ in range(rng.choice([1, 1, 2])):
+        po = vary_opts(rng, c["opts"])
+        if rng.random() < 0.7:
+            po["ignore_required"] = True
+        else:
+            po.pop("ignore_required", None)
+        if rng.random() < 0.3:
+            po["mode"] = rng.choice(["r", "w", "a"])
+        if rng.random() < 0.2:
+            po["collect_errors"] = True
+        how = rng.choice(["subclass", "subclass", "from", "optcall"])
+        data = [kv for kv in c["init"] if rng.random() < 0.6]
+        ops = []
+        for _ in range(rng.randint(0, 3)):
+            k, f = rng.choice(keys)
+            if c["base"] == "dataclass":
+                ops.append({"op": "delattr", "k": f["att"]})
+            else:
+                kind = rng.choice(["delattr", "delitem", "pop", "popitem", "clear"])
+                ops.append({"op": kind, "k": f["att"] if kind == "delattr" else k})
+        pre.append({"how": how, "opts": po, "data": data, "ops": ops})
+    c["prelude"] = pre
+    return c
+
+
 def gen_case(rng, maxlen):
     c = gen_class(rng)
     if rng.random() < 0.4:
         c = add_hierarchy(rng, c)
     if rng.random() < 0.35:
         c = add_nesting(rng, c)
+    if rng.random() < 0.35:
+        c = add_prelude(rng, c)
     c["ops"] = gen_ops(rng, c, maxlen)
     return c
 
@@ -985,7 +1064,10 @@ class C07(Check):
             "inherits the rest, may add a field and may declare its own options, or the Options(...)(Base) variant; 35% of the "
             "instances are obtained as a nested value (field / List / Dict / Optional of the class in a Schema or DataClass parent "
             "whose options differ: immutable, ignore_required, ignore_delete_nonexistent, addition, collect_errors, override on "
-            "either side), at the parent's construction or by a later assignment through its attribute, item or update) "
+            "either side), at the parent's construction or by a later assignment through its attribute, item or update; 35% of the "
+            "histories start with a prelude: the same declarations are parsed and mutated first under other options (a subclass with "
+            "Options(ignore_required / immutable / mode / addition ...), the Options(...)(cls) variant, cls.__from__(data, options=...)) "
+            "and the run must equal the history without it) "
             "x operation sequences (<=12 quick, <=40 thorough) over setattr/setitem/delattr/delitem/update/pop/popitem/"
             "setdefault/clear/|=/copy on up to 3 live instances, arguments valid/convertible/invalid 50/25/25 for the "
             "addressed field's type; plus directed copy-then-mutate-both sequences; thorough adds every sequence of length 4 "
@@ -1171,7 +1253,7 @@ class C07(Check):
             prev = st["heap"]
         if changed >= 2 and (raised or removed):
             return hashlib.sha1(json.dumps([case["base"], case["opts"], case["fields"], case.get("props"), case["init"],
-                                            case["ops"], case.get("hier"), case.get("nest")], sort_keys=True).encode()).hexdigest()
+                                            case["ops"], case.get("hier"), case.get("nest"), case.get("prelude")], sort_keys=True).encode()).hexdigest()
         return None
 
     def _distribution(self, case, io):
